@@ -36,19 +36,21 @@ PROPS = {
         unreached=["EntryWriter::finish (document assembly, newline framing)", "write_all_vectored (see C16)", "json_string.rs (serde_json)"],
     ),
     "C08": dict(
-        verus=[("emf_cfg", {"profile_debug": True}), ("emf_cfg", {"profile_debug": False}), ("emf_validate", {})],
+        verus=[("emf_cfg", {"profile_debug": True}), ("emf_cfg", {"profile_debug": False}), ("emf_validate", {}), ("emf_metric", {})],
         technique="Verus function contracts on the extracted real Emf::builder / all_validations / no_validations / skip_all_validations (once per build profile) and on validate_name / timestamp / validate_string / string over a trusted ghost-map model of hashbrown's entry API",
         level_text="Deductive proof (Verus/z3) that every documented way of enabling validations really enables all three validation switches in BOTH build profiles "
                    "(cfg(debug_assertions) resolved mechanically per profile), that no_validations disables all, and that skip_all_validations is monotone and touches nothing else; "
                    "that names are rejected exactly when empty or `_aws` (iff names are validated), a second timestamp is an error, and the per-name automaton of string members "
                    "(absent -> written, declared dimension -> written, written -> error and map unchanged) holds for the real validate_string body, with the frame 'validation touches no output buffer' and "
-                   "'the uniqueness switch only gates the check'; plus an inductive lemma that of n writes under one name at most one is accepted. The duplicate / dimension checks inside ValueWriter::metric are not reached.",
+                   "'the uniqueness switch only gates the check'; plus an inductive lemma that of n writes under one name at most one is accepted. For the real ValueWriter::metric body: per-metric dimensions without split mode are an error, and the uniqueness automaton per (name, record index) "
+                   "(first metric recorded with its index; same metric twice in one record, a metric under a string's name, a metric under a declared dimension name: error), gated only by the switches. "
+                   "EntryDimensions configuration checks and the missing-dimension sweep in finish() are not reached.",
         level_note="Trusted: EmfBuilder::build forwards the switches unchanged (assumed contract, checked syntactically), derive(Default) on three bools is all-false, rewrites R4/R6/R7/R8, Verus + z3. "
                    "The record-level invariant 'no two members share a name' (hashbrown code in ValueWriter::metric) is not reached.",
         explanation="validation switches for both build profiles",
         assumptions=["EmfBuilder::build forwards `validation` unchanged", "derive(Default) for Validation is all-false",
                      "hashbrown entry_ref / OccupiedEntry::{get, get_mut, insert, remove} / VacantEntryRef::insert behave as a map keyed by the name's text (units/emf_validate.py prelude)"],
-        unreached=["ValueWriter::metric duplicate / dimension checks (peekable iterator, or_insert_with closures)", "EntryDimensions config checks (dyn Any downcast)", "missing-dimension sweep in finish() (map iteration)"],
+        unreached=["EntryDimensions config checks (EntryWriter::config: dyn Any downcast)", "missing-dimension sweep in finish() (map iteration)", "byte-for-byte equality of validated and unvalidated output (follows from the frames only for the functions under contract)"],
     ),
     "C01": dict(
         verus=[("bgq", {}, ["push", "consume", "report_validation_error", "drain_until_deadline"])],
@@ -85,16 +87,17 @@ PROPS = {
         unreached=["BackgroundQueueBuilder::capacity / do_build"],
     ),
     "C03": dict(
-        verus=[("emf_value", {}, ["write_observation", "write_metric_value", "write_metric"])],
+        verus=[("emf_value", {}, ["write_observation", "write_metric_value", "write_metric"]), ("emf_metric", {})],
         kani=["emf_num"],
         technique="Verus function contracts on the extracted real write_observation / write_metric (payload-carrying tokens): counts, skip rule and metric declaration",
         level_text="Deductive proof (Verus/z3), for every observation and multiplicity, that an unsigned observation is written as that integer with count = multiplicity, a float as its clamp with count = multiplicity, "
                    "a repeated one with count = occurrences x multiplicity saturating at u64::MAX, NaN exactly skipped; that values and counts stay aligned; and that the metric declaration carries the name, "
-                   "the unit iff not None, StorageResolution 1 iff high-resolution, and is absent for no-metric or unusable metrics. Timestamp, namespace replication and dimension sets (finish) are not reached.",
+                   "the unit iff not None, StorageResolution 1 iff high-resolution, and is absent for no-metric or unusable metrics. For the real ValueWriter::metric: a metric without per-metric dimensions (or in ignored-dimension mode) is written to the entry's own buffers, otherwise to the buffers of its dimension set "
+                   "(created on first use), exactly once, with the entry's sampling multiplicity. Timestamp, namespace replication and dimension arrays (finish) are not reached.",
         level_note="Trusted: as C02. Float VALUES are uninterpreted in Verus (the mean total/occurrences and the clamp are named spec functions); their numeric correctness is left to the Kani group when it runs.",
         explanation="leaf arithmetic and declaration of one metric",
         assumptions=["float division and clamp are the IEEE operations of the target (uninterpreted in Verus)"],
-        unreached=["EntryWriter::finish (timestamp millis, namespace replication, dimension arrays)", "ValueWriter::metric routing to per-dimension-set buffers", "EntryDimensions cartesian product"],
+        unreached=["EntryWriter::finish (timestamp millis, namespace replication, dimension arrays)", "MetricsForDimensionSet::new (per-set prefix text)", "EntryDimensions cartesian product"],
     ),
     "C16": dict(
         verus=[("bgq", {}, ["consume", "report_validation_error"]), ("sinks", {})],
